@@ -96,7 +96,8 @@ type Runner struct {
 	failAt   int
 	baseline map[string]bool
 	uses     int
-	Fresh    bool // a new interpreter for every program (slow: ~4 ms each)
+	Fresh    bool   // a new interpreter for every program (slow: ~4 ms each)
+	OnHang   func() // called by the watchdog before the process exits with code 97 (flush what was written)
 	Recycled int
 }
 
@@ -171,6 +172,9 @@ func (r *Runner) guarded(src string, f func()) {
 		case <-time.After(time.Duration(WatchdogSeconds) * time.Second):
 			fmt.Fprintf(os.Stderr, "HANG: the interpreter did not return from EvalString within %d s (step budget %d): %s\n",
 				WatchdogSeconds, r.Budget, strings.ReplaceAll(src, "\n", " "))
+			if r.OnHang != nil {
+				r.OnHang()
+			}
 			os.Exit(97)
 		}
 	}()
